@@ -163,7 +163,10 @@ class R:
             return _elementwise(lambda e: self + e, o)
         if isinstance(o, _NUM) and o == 0:
             return self
-        return R(self.t + lift_real(o))
+        try:
+            return R(self.t + lift_real(o))
+        except TypeError:
+            return NotImplemented
 
     def __radd__(self, o):
         if _arr(o):
@@ -177,7 +180,10 @@ class R:
             return _elementwise(lambda e: self - e, o)
         if isinstance(o, _NUM) and o == 0:
             return self
-        return R(self.t - lift_real(o))
+        try:
+            return R(self.t - lift_real(o))
+        except TypeError:
+            return NotImplemented
 
     def __rsub__(self, o):
         if _arr(o):
@@ -192,7 +198,10 @@ class R:
                 return 0.0
             if o == 1:
                 return self
-        return R(self.t * lift_real(o))
+        try:
+            return R(self.t * lift_real(o))
+        except TypeError:
+            return NotImplemented
 
     def __rmul__(self, o):
         if _arr(o):
@@ -207,7 +216,10 @@ class R:
     def __truediv__(self, o):
         if _arr(o):
             return _elementwise(lambda e: self / e, o)
-        d = lift_real(o)
+        try:
+            d = lift_real(o)
+        except TypeError:
+            return NotImplemented
         _guard_div(d)
         return R(self.t / d)
 
@@ -639,6 +651,7 @@ class Stats:
         self.samples = []
         self.label_s = {}
         self.assumed_feasible = 0
+        self.soft_unknown = {}
 
 
 class Explorer:
@@ -709,9 +722,56 @@ class Explorer:
             self.stats.q_unknown += 1
         return s
 
+    def _decided(self, t):
+        """truth value of a boolean term if it follows propositionally from literals decided on this path, else None"""
+        k = t.get_id()
+        if k in self.lits:
+            return self.lits[k]
+        if z3.is_true(t):
+            return True
+        if z3.is_false(t):
+            return False
+        if z3.is_not(t):
+            v = self._decided(t.arg(0))
+            return None if v is None else (not v)
+        if z3.is_and(t):
+            vals = [self._decided(c) for c in t.children()]
+            if any(v is False for v in vals):
+                return False
+            if all(v is True for v in vals):
+                return True
+            return None
+        if z3.is_or(t):
+            vals = [self._decided(c) for c in t.children()]
+            if any(v is True for v in vals):
+                return True
+            if all(v is False for v in vals):
+                return False
+            return None
+        return None
+
     def _decide(self, neg):
         """portfolio for an obligation: incremental solver (short), nlsat tactic on the whole goal, incremental (full)"""
         fast = min(int(os.environ.get("SYMX_FAST_MS", "300")), self.timeout_ms)
+        if getattr(self, 'fp_mode', False):
+            # floating point: a fresh QF_FP solver on the whole goal is far better than the incremental one
+            try:
+                s2 = z3.SolverFor('QF_FP')
+                s2.set('timeout', self.timeout_ms)
+                s2.add(*self.pc)
+                s2.add(neg)
+                t0 = time.time()
+                r2 = str(s2.check())
+                self.stats.solver_s += time.time() - t0
+            except z3.Z3Exception:
+                r2 = 'unknown'
+            if r2 == 'unsat':
+                self.stats.q_unsat += 1
+            elif r2 == 'sat':
+                self.stats.q_sat += 1
+            else:
+                self.stats.q_unknown += 1
+            return r2, s2
         self.solver.set('timeout', fast)
         try:
             r = self._check(neg)
@@ -721,7 +781,7 @@ class Explorer:
             return r, self.solver
         self.stats.q_unknown -= 1
         try:
-            s2 = z3.SolverFor('QF_NRA')
+            s2 = z3.SolverFor('QF_FP' if getattr(self, 'fp_mode', False) else 'QF_NRA')
             s2.set('timeout', self.timeout_ms)
             s2.add(*self.pc)
             s2.add(neg)
@@ -920,6 +980,7 @@ class Explorer:
         """IEEE double input (finite unless stated)"""
         v = z3.FP(self._nm(name), F64)
         self.names[name] = v
+        self.fp_mode = True
         if finite:
             self._add(z3.And(z3.Not(z3.fpIsNaN(v)), z3.Not(z3.fpIsInf(v))))
         return D(v)
@@ -993,7 +1054,7 @@ class Explorer:
             self._add(lift_bool(cond))
         return ok
 
-    def prove(self, cond, label, info=None, using=None):
+    def prove(self, cond, label, info=None, using=None, soft=False):
         """obligation: under the current path condition `cond` holds for all values.
         using=[facts]: modular step - first try to derive cond from these facts alone (each must already be part of the
         path condition or a proved lemma; weakening the hypotheses is sound for an unsat answer)"""
@@ -1020,6 +1081,10 @@ class Explorer:
                 self.stats.q_unsat += 1
                 self.stats.proved[label] = self.stats.proved.get(label, 0) + 1
                 return True
+        if not isinstance(cond, bool):
+            dec = self._decided(lift_bool(cond))
+            if dec is not None:
+                cond = dec      # settled by literals the path has already decided (no arithmetic reasoning needed)
         if isinstance(cond, bool):
             if cond:
                 self.stats.proved[label] = self.stats.proved.get(label, 0) + 1
@@ -1035,6 +1100,11 @@ class Explorer:
             self.stats.proved[label] = self.stats.proved.get(label, 0) + 1
             return True
         if r == 'unknown':
+            if soft:
+                # floating-point obligation undecided within the budget: inconclusive-FP (recorded, not a verdict)
+                self.stats.q_unknown -= 1
+                self.stats.soft_unknown[label] = self.stats.soft_unknown.get(label, 0) + 1
+                return None
             self.stats.unknowns.append(label)
             return None
         m = msolver.model()
@@ -1228,7 +1298,7 @@ class FloatCtx:
     def lemma(self, cond, label, using=None):
         return self.prove(cond, 'lemma:' + label)
 
-    def prove(self, cond, label, info=None, using=None):
+    def prove(self, cond, label, info=None, using=None, soft=False):
         if bool(cond):
             self.passed.append(label)
             return True
